@@ -105,14 +105,20 @@ static void schedule_scenario(int k)
     // closure owning heap state, captured by value
     std::shared_ptr<std::vector<int>> heap = std::make_shared<std::vector<int>>(8, i + 1);
     std::string tag = std::string(28, 't') + std::to_string(i);
-    schedule([sh, heap, tag, i]() {
+    auto fn = [sh, heap, tag, i]() {
       long sum = 0;
       for (int x : *heap)
         sum += x;
       MC_CHECK(sum == 8 * (i + 1) && tag.size() == 29, "schedule|closure state corrupted", "captured heap state differs");
       sh->runs[i].fetch_add(1);
       sem_post(&sh->done);
-    });
+    };
+    // every second closure is handed over as an LVALUE that dies at the end of this iteration: the scheduled
+    // copy must be the task's own
+    if (i & 1)
+      schedule(fn);
+    else
+      schedule(std::move(fn));
   }
   // "eventually, with no further action required from the caller": the caller only blocks
   for (int i = 0; i < k; i++)
